@@ -16,14 +16,14 @@
    shape its C++ type enforces, and value 0 of a pack/channel/stream-format ID belongs to the all-zero ID only.
    The two theorems that keep the suffix _partial are stated for an arbitrary state under [distinct_above];
    C05_distinctness_holds_in_reached_states discharges that hypothesis in every reached state.
-   The invariant is carried through the extended calls too - block additions, times, copy(), Document::deepCopy,
-   deepCopyTo, updateBlockFormatDurations, tracing (C05_ids_unique_all_calls, Heap/UniqExt.v) - and reassignIds keeps
-   membership consistency and uniqueness (C05_reassign_keeps_ids_unique, Heap/UniqReassign.v: every new ID goes through
-   set(Id), which refuses an ID in use); histories that continue after a reassignIds are not covered by the invariant
-   theorem because the shape of the IDs it hands out depends on the kinds of the members at each call site.
+   The invariant is carried through all extended calls too - block additions, times, copy(), Document::deepCopy,
+   deepCopyTo, reassignIds, updateBlockFormatDurations, tracing (C05_ids_unique_all_calls, Heap/UniqExt.v).  For
+   reassignIds: every new ID goes through set(Id), which refuses an ID in use (Heap/UniqReassign.v), and every ID it
+   hands out has the shape of its kind because the counters start at 0x1001 and only grow and the kinds of the members
+   and of referenced elements are those of the state in which it was called (Heap/ReassignU.v).
    Not modelled here: parsed documents (C08/C13 cover them), wrap-around of the 16/32-bit fields. *)
 From Adm Require Import Heap.Exec Heap.More gen.PlansGen Heap.PlanChecks Heap.Frame Heap.Ids Heap.WF Heap.WFExt Heap.Joint Heap.Uniq
-  Heap.UniqExt Heap.UniqReassign.
+  Heap.UniqExt Heap.UniqReassign Heap.ReassignU.
 Local Open Scope N_scope.
 
 Theorem C05_plans_recognised : plans_problems = [] /\ add_plan_complete gen_plans = true /\ plans_typed gen_plans = true.
@@ -140,32 +140,38 @@ Qed.
 Print Assumptions C05_distinctness_holds_in_reached_states.
 
 (* copies and the other extended calls *)
-Theorem C05_ids_unique_all_calls : forall ops s', forallb (fun o => negb (is_reassign o)) ops = true ->
+Theorem C05_ids_unique_all_calls : forall ops s',
   xshaped_run gen_plans ops empty_state -> xrun_succ gen_plans ops empty_state = Some s' ->
   forall d k h1 h2 e1 e2, In h1 (listed s' d k) -> In h2 (listed s' d k) -> h1 <> h2 ->
     get_elem s' h1 = Some e1 -> get_elem s' h2 = Some e2 -> exempt k (eid e1) = false -> eid e1 <> eid e2.
 Proof.
-  exact (fun ops s' Hn Hok Hrun =>
+  exact (fun ops s' Hok Hrun =>
     match uniq_xinvariant gen_plans gen_add_plan_complete gen_remove_plan_complete gen_plans_typed eq_refl
-            ops empty_state s' Hn empty_G empty_U Hok Hrun with
+            ops empty_state s' empty_G empty_U Hok Hrun with
     | conj _ (conj Un _) => Un
     end).
 Qed.
 Print Assumptions C05_ids_unique_all_calls.
 
-(* a history with colliding pre-set IDs, a deep copy, an element copy added to the copy, and deepCopyTo into it:
-   the guard holds, and the IDs and parents at the end *)
+(* reassignIds keeps the whole invariant, so histories may continue after it *)
+Theorem C05_reassign_keeps_the_invariant : forall d s s' u, WF s -> U s -> reassign_ids d s = (s', inl u) -> U s'.
+Proof. exact reassign_ids_U. Qed.
+Print Assumptions C05_reassign_keeps_the_invariant.
+
+(* a history with colliding pre-set IDs, a deep copy, an element copy added to the copy, deepCopyTo into it, then
+   reassignIds on the copy and one more element added: the guard holds, and the IDs and parents at the end *)
 Example C05_history_with_copies :
   let ops := map XBase [ONewDoc 1; ONew 2 KObj 0 false; ONew 3 KObj 0 false; ONew 4 KPack 1 false;
                         OSetId 2 (mkId 0 4200 0); OSetId 3 (mkId 0 4200 0); OAdd 1 2; OAdd 1 3; OAdd 1 4]
-             ++ [XDeepCopy 1 9 20; XCopy 2 30; XBase (OAdd 9 30); XDeepCopyTo 1 9 40] in
+             ++ [XDeepCopy 1 9 20; XCopy 2 30; XBase (OAdd 9 30); XDeepCopyTo 1 9 40; XReassign 9; XBase (ONew 50 KObj 0 false);
+                 XBase (OAdd 9 50)] in
   xshaped_run_b gen_plans ops empty_state = true /\
   match xrun_succ gen_plans ops empty_state with
-  | Some s => map (fun h => option_map (fun e => (ival (eid e), eparent e)) (get_elem s h)) [2; 3; 4; 20; 21; 22; 30; 40; 41; 42]%positive
+  | Some s => map (fun h => option_map (fun e => (ival (eid e), eparent e)) (get_elem s h)) [2; 3; 4; 20; 21; 22; 30; 40; 41; 42; 50]%positive
               = [Some (4200, Some 1%positive); Some (4201, Some 1%positive); Some (4097, Some 1%positive);
-                 Some (4200, Some 9%positive); Some (4201, Some 9%positive); Some (4097, Some 9%positive);
-                 Some (4202, Some 9%positive); Some (4203, Some 9%positive); Some (4204, Some 9%positive);
-                 Some (4098, Some 9%positive)]
+                 Some (4097, Some 9%positive); Some (4098, Some 9%positive); Some (4097, Some 9%positive);
+                 Some (4099, Some 9%positive); Some (4100, Some 9%positive); Some (4101, Some 9%positive);
+                 Some (4098, Some 9%positive); Some (4102, Some 9%positive)]
   | None => False
   end.
 Proof. vm_compute. auto. Qed.
